@@ -200,7 +200,7 @@ def run(tier, replay):
             return 1
         print('replayed program no longer violates C08')
         return 0
-    rep = common.Report(prop, tier, level='proof')
+    rep = common.Report(prop, tier, level=obligations.LEVEL.get(prop, 'exploration'))
     ob = common.check_obligations(prop, obligations.THEOREMS.get(prop, []))
     n = 800 if tier == 'quick' else 15000
     ctx = mp.get_context('fork')
